@@ -64,6 +64,30 @@ def batch_oracle(ctx, lines, impl):
                     verdicts[i] = "the values %s were given in this order but are bound in another order: %s" % (
                         run, vals[min(pos):max(pos) + 1])
                     break
+    # Same SQL, other values.  By C01_statement_values_are_the_given_ones the model's values ARE the statement's
+    # values in the dialect's reading order (Spec/StmtValues.v, proved for every statement).  When the implementation
+    # returns exactly the model's parameterised SQL (same text, same placeholders at the same places) but another value
+    # list, a value is bound at a position it was not given for (or lost / duplicated): a failure with this input.
+    model = getattr(ctx, "last_model", None) if lines is getattr(ctx, "last_lines", None) else None
+    if model is None:
+        model = ctx.run_model(lines, "oracle")
+    same_sql = 0
+    for i in idx:
+        if verdicts[i] is not None:
+            continue
+        fm = qcommon.split_out(model[i])
+        if fm is None:
+            continue
+        fi = qcommon.split_out(impl[i])
+        if fi[1] == fm[1]:
+            same_sql += 1
+            if fi[2] != fm[2]:
+                k = next((j for j, (a, c) in enumerate(zip(fi[2], fm[2])) if a != c), min(len(fi[2]), len(fm[2])))
+                verdicts[i] = ("the parameterised SQL is exactly the expected text, but placeholder %d is bound to %s where "
+                               "the statement's value in reading order is %s (bound %d values, statement gives %d)" % (
+                                   k + 1, fi[2][k] if k < len(fi[2]) else "nothing",
+                                   fm[2][k] if k < len(fm[2]) else "nothing", len(fi[2]), len(fm[2])))
+    ctx.cov["oracle_same_sql_value_lists_compared"] = same_sql
     ctx.cov["oracle_statements_scanned"] = checked
     ctx.cov["oracle_value_runs_checked"] = RUNS[0]
     return verdicts
